@@ -21,7 +21,7 @@ type Gen struct {
 	rewards  bool // this tree may call delegationRewards (trigger of finding C09-1)
 	tokenCB  bool // this tree may make one crossChain call of the hostile registered ERC-20
 	usedCB   bool
-	claimsOK, claimsPanic int // pending claims of the world already assigned to markers of this tree
+	claimsOK, claimsPanic, claimsIBC, claimsIBCClosed int // pending claims of the world already assigned to markers of this tree
 	panicky  bool // this tree may contain a keeper call that panics
 	poolUse  map[int]MarkerKind // per storage context: its pool entry is used by cancel or by increaseFee markers, not both
 }
@@ -131,6 +131,22 @@ func (g *Gen) fillFrame(f *Node, depth, ctx int, static bool) {
 			if !static && ck == lib.CALL && g.claimsOK < nClaims && g.r.Chance(9) {
 				mk = MkExecClaim
 			}
+			if !static && ck == lib.CALL && g.r.Chance(7) {
+				switch g.r.Intn(3) {
+				case 0:
+					if g.claimsIBC < nIBCClaims {
+						mk = MkExecIBC
+					}
+				case 1:
+					if g.claimsIBCClosed < nIBCClaims {
+						mk = MkExecIBCClosed
+					}
+				case 2:
+					if ctx < nBatched {
+						mk = MkFeeGone
+					}
+				}
+			}
 			if g.panicky && !static && g.claimsPanic < 2 && g.r.Chance(30) {
 				mk, ck = MkExecPanic, lib.CALL
 			}
@@ -145,6 +161,14 @@ func (g *Gen) fillFrame(f *Node, depth, ctx int, static bool) {
 			case MkExecPanic:
 				m.Claim = g.w.panicClaims[g.claimsPanic]
 				g.claimsPanic++
+			case MkExecIBC:
+				m.Claim = g.w.ibcOpen[g.claimsIBC]
+				g.claimsIBC++
+			case MkExecIBCClosed:
+				m.Claim = g.w.ibcClosed[g.claimsIBCClosed]
+				g.claimsIBCClosed++
+			case MkFeeGone:
+				m.Pool = g.r.Intn(4) / 3 // mostly the batched transfer, sometimes an id that never existed
 			}
 			if mk == MkDelegate || mk == MkXChain || mk == MkBridgeCall || mk == MkIncreaseFee {
 				m.Bit = g.nextBit
